@@ -254,7 +254,23 @@ class Parser:
             if tok[0] != 'id':
                 raise Unsupported('line %s: declared name expected, found %r' % (tok[2], tok[1]))
             init = None
-            if self.at('='):
+            if self.at('['):
+                # array declarator: name[<size tokens>]
+                self.next()
+                depth, toks = 1, []
+                while depth:
+                    tk = self.next()
+                    if tk[0] == 'eof':
+                        raise Unsupported('unterminated array declarator')
+                    if tk[1] == '[':
+                        depth += 1
+                    elif tk[1] == ']':
+                        depth -= 1
+                        if depth == 0:
+                            break
+                    toks.append(tk[1])
+                init = ('array', ''.join(toks))
+            elif self.at('='):
                 self.next()
                 init = self.parse_assign()
             elif self.at('{'):
@@ -461,6 +477,12 @@ class Parser:
             return ('str', v)
         if k == 'op' and v == '(':
             self.next()
+            if self.at('...') and self.at(',', 1):
+                # unary left fold over the comma operator: (..., e)
+                self.next(); self.next()
+                e = self.parse_assign()
+                self.expect(')')
+                return ('fold', ',', e)
             e = self.parse_expr()
             self.expect(')')
             return e
@@ -481,7 +503,13 @@ class Parser:
                 self.expect(')')
                 return ('cast', v, ', '.join(targs), e)
             if v == 'sizeof':
-                self.next(); self.expect('(')
+                self.next()
+                if self.at('...'):
+                    self.next(); self.expect('(')
+                    nm = self.next()
+                    self.expect(')')
+                    return ('sizeofpack', nm[1])
+                self.expect('(')
                 depth = 1; txt = []
                 while depth:
                     tok = self.next()
